@@ -433,6 +433,18 @@ def _setvolume(spec, ctx, summary):
     if len(got) != len(want) or not _close(got, want).all():
         ctx.violation("set-volume-ignored", feat, f"volume {np.round(got, 5).tolist()} after set_volume({np.round(want, 5).tolist()})")
     summary.update(volume=np.round(got, 5).tolist())
+    # "a user-set volume overrides it": density sampling must use the user's volume as well
+    I = geo._strip_boundary(E)
+    if k <= 1 and spec["wrap"] == "none" and I["t"] in ("interval", "circle", "par", "sphere") and len(got) == 1:
+        dens = 7.3 / float(got[0])
+        with ctx.lib("sample_random_uniform(d) after set_volume", feature=feat):
+            with warnings.catch_warnings():
+                warnings.simplefilter("ignore")
+                Pd = D.sample_random_uniform(d=dens, params=params)
+        expect = int(torch.ceil(torch.tensor(dens, dtype=torch.float32) * torch.tensor(float(got[0]), dtype=torch.float32)))
+        if len(Pd) != expect:
+            ctx.violation("set-volume-ignored", feat + "|density",
+                          f"density sampling after set_volume returned {len(Pd)} rows, ceil(d * user volume) = {expect}")
     # the user-set volume must survive partial evaluation ("unchanged by partial evaluation")
     vals = {kk: torch.tensor(v[:1], dtype=torch.float32).reshape(1, -1) for kk, v in prows.items()} \
         if k else {"p": torch.tensor([[0.5]])}
